@@ -772,6 +772,7 @@ class SequentialContext:
         return SequentialContext(
             self._clk,
             Reset(combined_reset, active_low=active_low, is_async=is_async),
+            step_cond=self._step_cond,
             attributes=self._attributes,
         )
 
@@ -817,6 +818,7 @@ class SequentialContext:
         return SequentialContext(
             self._clk,
             Reset(combined_reset, active_low=active_low, is_async=is_async),
+            step_cond=self._step_cond,
             attributes=self._attributes,
         )
 
